@@ -40,6 +40,11 @@ type Op struct {
 type Case struct {
 	Mode int  `json:"mode"` // 0 ModeAll, 1 ModeLatest, 3 ModeGC
 	Ops  []Op `json:"ops"`
+	// Lazy: when every key is read back from the live trie (a read loads the nodes on its path and keeps them):
+	// 0 after every op; 1 only right before a flush / collapse / reload and at the end, so that mutations, range
+	// reads and proofs meet hash nodes that are still to be fetched from the store; 2 after every op except the
+	// one that collapsed or reloaded the trie.
+	Lazy int `json:"lazy,omitempty"`
 }
 
 var alphabet = []byte{0x00, 0x01, 0x10, 0x11, 0xff, 0x0f, 0xf0, 0x12}
@@ -144,7 +149,7 @@ func genOp(t *rapid.T) Op {
 }
 
 func genCase(t *rapid.T) Case {
-	c := Case{Mode: rapid.SampledFrom([]int{0, 0, 1, 3}).Draw(t, "mode")}
+	c := Case{Mode: rapid.SampledFrom([]int{0, 0, 1, 3}).Draw(t, "mode"), Lazy: rapid.SampledFrom([]int{0, 1, 1, 2}).Draw(t, "lazy")}
 	n := rapid.IntRange(1, 80).Draw(t, "nops")
 	var seen []vt.Bytes // keys written so far: range queries are aimed at their split points
 	for i := 0; i < n; i++ {
@@ -208,6 +213,7 @@ func checkCase(c Case, o *vt.Obs) error {
 	mutatedSinceReload := false
 	sawReloadBetween := false
 	sawMixedBatch := false
+	sawLazy := false
 
 	flush := func() {
 		tr.Flush(index)
@@ -338,6 +344,23 @@ func checkCase(c Case, o *vt.Obs) error {
 			return where("root %x differs from reference root %x of content (%d keys)", got, want, len(model))
 		}
 		// Reads agree with the content on the LIVE trie too (in-memory nodes, not only what was flushed): every key, every step.
+		sweep := true
+		switch c.Lazy {
+		case 1:
+			sweep = i+1 == len(c.Ops)
+			if !sweep {
+				nk := c.Ops[i+1].Kind
+				sweep = nk == "flush" || nk == "collapse" || nk == "reload"
+			}
+		case 2:
+			sweep = op.Kind != "collapse" && op.Kind != "reload"
+		}
+		if !sweep {
+			if op.Kind == "collapse" || op.Kind == "reload" {
+				sawLazy = true
+			}
+			continue
+		}
 		for _, k := range sortedKeys(model) {
 			v, err := tr.Get([]byte(k))
 			if err != nil || !bytes.Equal(v, model[k]) {
@@ -385,6 +408,10 @@ func checkCase(c Case, o *vt.Obs) error {
 	if sawReloadBetween {
 		o.Label("reload-between-mutations")
 	}
+	if sawLazy {
+		o.Label("ops-on-unloaded-hash-nodes")
+	}
+	o.Labelf("lazy%d", c.Lazy)
 	if sawMixedBatch || sawReloadBetween {
 		o.NonTrivial()
 	}
@@ -502,7 +529,29 @@ func checkSeek(tr *mpt.Trie, mode mpt.TrieMode, store *storage.MemCachedStore, m
 		got = append(got, storage.KeyValue{Key: bytes.Clone(k), Value: bytes.Clone(v)})
 		return op.StopAt == 0 || len(got) < op.StopAt
 	})
-	return cmpKV(fmt.Sprintf("TrieStore.Seek(prefix=%x,start=%x,back=%v,stop=%d)", op.K, op.From, op.Back, op.StopAt), got, want)
+	if err := cmpKV(fmt.Sprintf("TrieStore.Seek(prefix=%x,start=%x,back=%v,stop=%d)", op.K, op.From, op.Back, op.StopAt), got, want); err != nil {
+		return err
+	}
+	// Point reads through the same read-only view (historic System.Storage.Get): the prefix itself, prefix+start
+	// and every key the scan returned.
+	probe := [][]byte{bytes.Clone(op.K), append(bytes.Clone(op.K), op.From...)}
+	for _, kv := range got {
+		probe = append(probe, kv.Key[1:])
+	}
+	ts2 := mpt.NewTrieStore(root, mode&^mpt.ModeGCFlag, store)
+	for _, k := range probe {
+		v, err := ts2.Get(append([]byte{byte(storage.STStorage)}, k...))
+		want, ok := model[string(k)]
+		switch {
+		case ok && (err != nil || !bytes.Equal(v, want)):
+			return fmt.Errorf("TrieStore.Get(%x) = %x,%v want %x", k, short(v), err, short(want))
+		case !ok && err == nil:
+			return fmt.Errorf("TrieStore.Get(%x): absent key gives value %x", k, short(v))
+		case !ok && !errors.Is(err, storage.ErrKeyNotFound) && len(k) <= mpt.MaxKeyLength:
+			return fmt.Errorf("TrieStore.Get(%x): absent key gives unexpected error %v", k, err)
+		}
+	}
+	return nil
 }
 
 // ---- proof tampering ------------------------------------------------------------------------------
